@@ -93,7 +93,49 @@ def check(ctx, label, value, results):
     return ok
 
 
+_OTHERS = {}
+
+
+class Shadow:
+    """
+    A context that swallows another property's verdicts: its workload is run
+    only so that the constructor hook (bound to C01's own context) sees every
+    diagram built inside it.
+    """
+    def __init__(self, real, pid):
+        self.tier, self.seed, self.shard = real.tier, real.seed, real.shard
+        self.nshards, self.index, self.pid = real.nshards, real.index, pid
+        self.current_request = None
+
+    def expect(self, monitor, cond, **witness):
+        return bool(cond)
+
+    def __getattr__(self, name):
+        return lambda *args, **kwargs: None
+
+
+def foreign_workload(rng, ctx):
+    """ Replay a case of another property's workload under the L1 hook. """
+    import importlib
+    pid = ["c04", "c06", "c07", "c10", "c18", "c05", "c02"][ctx.index // 13 % 7]
+    if pid not in _OTHERS:
+        mod = importlib.import_module("verif.props." + pid)
+        shadow = Shadow(ctx, pid.upper())
+        if hasattr(mod, "setup"):
+            mod.setup(shadow)
+        _OTHERS[pid] = mod
+    shadow = Shadow(ctx, pid.upper())
+    ctx.current_request = None
+    try:
+        _OTHERS[pid].run_case(rng, shadow)
+        ctx.count("foreign_workload_cases:" + pid)
+    except Exception as err:
+        ctx.refuse("foreign-workload:{}:{}".format(pid, type(err).__name__))
+
+
 def run_case(rng, ctx):
+    if ctx.index % 13 == 12:
+        return foreign_workload(rng, ctx)
     kit = _KITS[ctx.index % len(_KITS)] if ctx.index % 11 else None
     if kit is None:
         return cat_case(rng, ctx)
